@@ -92,7 +92,24 @@ def run(ctx: core.Ctx) -> int:
             pi, kind = rng.randrange(2, 9), A.PATTERNS[k % len(A.PATTERNS)]
             if A.plant(rows, pi, kind, early=True):
                 planted.insert(0, (pi, kind))
+        early_probes = []
+        if n >= 12 and k % 2 == 0:
+            # the pattern on the NEWEST candle, asked about at the first indices: an explicit index 0 or 1
+            # is an index, not "the latest candle"
+            kind_last = A.PATTERNS[(k // 2) % len(A.PATTERNS)]
+            if all(q < n - 2 for q, _ in planted) and A.plant(rows, n - 1, kind_last):
+                planted.append((n - 1, kind_last))
+                early_probes = [({"f": kind_last, "lookback": None}, 0), ({"f": kind_last, "lookback": 2}, 1)]
         probes = []
+        for spec_e, i_e in early_probes:
+            dist[spec_e["f"]] = dist.get(spec_e["f"], 0) + 1
+            if mode != "wild":
+                ctx.count("eval_falsifier")
+                falsify_direct(ctx, rows, spec_e, i_e)
+            cs_e = A.mk(rows)
+            for idx in (i_e, i_e - n):
+                probes.append((spec_e, idx, A.outcome(spec_e, cs_e, idx)))
+                ctx.count("eval_correspondence")
         for j in range(10):
             if planted and j < 2 * len(planted):
                 pi, kind = planted[j % len(planted)]
